@@ -19,14 +19,14 @@ From OV Require Import Proofs.RoundMatmul.
    Proofs: Proofs/MatNormLawsBase.v (real sums, maxima), MatNormLawsP.v (norm_p with 0^p = 0), MatNormLawsAx.v (norm
    axioms, transpose), MatNormLawsMink.v (Minkowski), MatNormLawsMul.v (products), MatNormLawsMore.v (subtraction, comparison, monotonicity in p, identity),
    MatNormLawsRound.v (standard model),
-   MatNormLawsFloat.v (the binary64 instance through Flocq).
+   MatNormLawsFloat.v (the binary64 instance through Flocq), MatNormLawsStruct.v (structure, every arithmetic).
    All over the real instance [MatNormsR.AR]/[MatNormsR.SAR] of the model functions (the rounding block: the
    standard-model instance against it).  Axioms: the four standard real-number/classical ones, as for [norms_real].
    ====================================================================================================== *)
 From Coq Require Import Reals Lra Lia.
 From OV Require Import Base.RoundModel Proofs.RoundFlx.
 From OV Require Proofs.RoundNorm2 Proofs.MatNormLawsBase Proofs.MatNormLawsP Proofs.MatNormLawsAx Proofs.MatNormLawsMink
-  Proofs.MatNormLawsMul Proofs.MatNormLawsMore Proofs.MatNormLawsRound Proofs.MatNormLawsFloat.
+  Proofs.MatNormLawsMul Proofs.MatNormLawsMore Proofs.MatNormLawsRound Proofs.MatNormLawsFloat Proofs.MatNormLawsStruct.
 
 (* ---------- norm_p with a power function that is right at zero (package matnorm) ----------
    [MatNormLawsP.pw x p] = if x = 0 then 0 else Rpower x p : the real power with 0^p = 0, which is what libm's pow returns
@@ -266,6 +266,24 @@ Check matnorm_max_submult_refuted : (exists (a b p : matrix MatNormsR.AR) (na nb
     mnorm_max (S:=MatNormsR.SAR) a = Ok na /\ mnorm_max (S:=MatNormsR.SAR) b = Ok nb /\ mnorm_max (S:=MatNormsR.SAR) p = Ok np /\
     na * nb < np)%R.
 Print Assumptions matnorm_max_submult_refuted.
+
+(* what norm_max does satisfy under the product: the factor is the inner dimension, or one factor is measured in
+   norm_inf (left) / norm_1 (right) *)
+Theorem matnorm_max_mul : (forall (a b : matrix MatNormsR.AR), Proofs.Matrix.wf a -> Proofs.Matrix.wf b -> cols a = rows b ->
+  exists p ax ai bx b1 px, mat_mul (A:=MatNormsR.AR) a b = Ok p /\
+    mnorm_max (S:=MatNormsR.SAR) a = Ok ax /\ mnorm_inf (S:=MatNormsR.SAR) a = Ok ai /\
+    mnorm_max (S:=MatNormsR.SAR) b = Ok bx /\ mnorm_1 (S:=MatNormsR.SAR) b = Ok b1 /\ mnorm_max (S:=MatNormsR.SAR) p = Ok px /\
+    px <= INR (cols a) * ax * bx /\ px <= ai * bx /\ px <= ax * b1)%R.
+Proof. exact MatNormLawsMul.matnorm_max_mul_lemma. Qed.
+Check matnorm_max_mul : (forall (a b : matrix MatNormsR.AR), Proofs.Matrix.wf a -> Proofs.Matrix.wf b -> cols a = rows b ->
+  exists p ax ai bx b1 px, mat_mul (A:=MatNormsR.AR) a b = Ok p /\
+    mnorm_max (S:=MatNormsR.SAR) a = Ok ax /\ mnorm_inf (S:=MatNormsR.SAR) a = Ok ai /\
+    mnorm_max (S:=MatNormsR.SAR) b = Ok bx /\ mnorm_1 (S:=MatNormsR.SAR) b = Ok b1 /\ mnorm_max (S:=MatNormsR.SAR) p = Ok px /\
+    px <= INR (cols a) * ax * bx /\ px <= ai * bx /\ px <= ax * b1)%R.
+Print Assumptions matnorm_max_mul.
+Example matnorm_max_mul_nonvacuous :
+  Proofs.Matrix.wf (mkM (A:=MatNormsR.AR) [1%R; (-2)%R; 0%R; 4%R; 0%R; (-5)%R] 2 3) /\ Proofs.Matrix.wf (mkM (A:=MatNormsR.AR) [2%R; 0%R; (-1)%R; 1%R; 0%R; 7%R] 3 2) /\ cols (mkM (A:=MatNormsR.AR) [1%R; (-2)%R; 0%R; 4%R; 0%R; (-5)%R] 2 3) = rows (mkM (A:=MatNormsR.AR) [2%R; 0%R; (-1)%R; 1%R; 0%R; 7%R] 3 2).
+Proof. repeat split. Qed.
 
 (* consistency with the vector norms of Model/Vector.v under the model's matrix-vector product [multiply]
    (the vector norm_inf panics on the empty vector, hence rows, cols >= 1 for that one) *)
@@ -577,3 +595,47 @@ Proof. cbn zeta. split; [reflexivity|]. split; [eexists; split; [vm_compute; ref
   - intros [|[|[|[|k]]]] Hk; cbn in Hk; try lia; cbn [nth buf]; rewrite ?E15, ?E2, ?E3, ?E4;
       apply no_underflow_ge1; rewrite Rabs_pos_eq; lra.
   - cbn [rows cols Nat.mul Nat.add INR]. pose proof u64_small. lra. Qed.
+
+(* ---------- structure: matrix norms through the vector norms, for EVERY arithmetic (package matnorm) ----------
+   no ring / order / field law is used, so these hold bit for bit at the float instance: the column sum maximised by
+   norm_1 is the vector 1-norm of get_col(j), the row sum of norm_inf that of get_row(i); norm_frob is the vector 2-norm
+   of the flat buffer; norm_p is the fold of the buffer. *)
+Theorem colsum_is_norm_1_of_get_col : (forall (S : SArith) (m : matrix (SA S)) (j : nat), Proofs.Matrix.wf m -> (j < cols m)%nat ->
+  exists v, get_col m j = Ok v /\ length v = rows m /\ colsum m j = Model.Vector.norm_1 v)%R.
+Proof. intros S m j. exact (MatNormLawsStruct.colsum_get_col_lemma m j). Qed.
+Check colsum_is_norm_1_of_get_col : (forall (S : SArith) (m : matrix (SA S)) (j : nat), Proofs.Matrix.wf m -> (j < cols m)%nat ->
+  exists v, get_col m j = Ok v /\ length v = rows m /\ colsum m j = Model.Vector.norm_1 v)%R.
+Print Assumptions colsum_is_norm_1_of_get_col.
+Example colsum_is_norm_1_of_get_col_nonvacuous :
+  Proofs.Matrix.wf (@mkM AF [1.5%float; (-2)%float; 3%float; 4%float; 0%float; (-0.5)%float] 2 3) /\ 2 < cols (@mkM AF [1.5%float; (-2)%float; 3%float; 4%float; 0%float; (-0.5)%float] 2 3).
+Proof. split; [reflexivity|cbn; lia]. Qed.
+
+Theorem rowsum_is_norm_1_of_get_row : (forall (S : SArith) (m : matrix (SA S)) (i : nat), Proofs.Matrix.wf m -> (i < rows m)%nat ->
+  exists v, get_row m i = Ok v /\ length v = cols m /\ rowsum m i = Model.Vector.norm_1 v)%R.
+Proof. intros S m i. exact (MatNormLawsStruct.rowsum_get_row_lemma m i). Qed.
+Check rowsum_is_norm_1_of_get_row : (forall (S : SArith) (m : matrix (SA S)) (i : nat), Proofs.Matrix.wf m -> (i < rows m)%nat ->
+  exists v, get_row m i = Ok v /\ length v = cols m /\ rowsum m i = Model.Vector.norm_1 v)%R.
+Print Assumptions rowsum_is_norm_1_of_get_row.
+Example rowsum_is_norm_1_of_get_row_nonvacuous :
+  Proofs.Matrix.wf (@mkM AF [1.5%float; (-2)%float; 3%float; 4%float; 0%float; (-0.5)%float] 2 3) /\ 1 < rows (@mkM AF [1.5%float; (-2)%float; 3%float; 4%float; 0%float; (-0.5)%float] 2 3).
+Proof. split; [reflexivity|cbn; lia]. Qed.
+
+Theorem mnorm_frob_is_norm_2_of_buf : (forall (S : SArith) (m : matrix (SA S)), Proofs.Matrix.wf m ->
+  mnorm_frob m = Ok (Model.Vector.norm_2 (@OV.Base.Arith.abs (SA S)) (buf m)))%R.
+Proof. intros S m. exact (MatNormLawsStruct.mnorm_frob_norm_2_lemma m). Qed.
+Check mnorm_frob_is_norm_2_of_buf : (forall (S : SArith) (m : matrix (SA S)), Proofs.Matrix.wf m ->
+  mnorm_frob m = Ok (Model.Vector.norm_2 (@OV.Base.Arith.abs (SA S)) (buf m)))%R.
+Print Assumptions mnorm_frob_is_norm_2_of_buf.
+Example mnorm_frob_is_norm_2_of_buf_nonvacuous :
+  Proofs.Matrix.wf (@mkM AF [1.5%float; (-2)%float; 3%float; 4%float; 0%float; (-0.5)%float] 2 3).
+Proof. reflexivity. Qed.
+
+Theorem mnorm_p_is_fold_of_buf : (forall (S : SArith) (pw root : SA S -> SA S) (m : matrix (SA S)), Proofs.Matrix.wf m ->
+  mnorm_p pw root m = Ok (root (fold_left (fun acc x => OV.Base.Arith.add acc (pw (OV.Base.Arith.abs x))) (buf m) (@OV.Base.Arith.zero (SA S)))))%R.
+Proof. intros S pw root m. exact (MatNormLawsStruct.mnorm_p_fold_lemma pw root m). Qed.
+Check mnorm_p_is_fold_of_buf : (forall (S : SArith) (pw root : SA S -> SA S) (m : matrix (SA S)), Proofs.Matrix.wf m ->
+  mnorm_p pw root m = Ok (root (fold_left (fun acc x => OV.Base.Arith.add acc (pw (OV.Base.Arith.abs x))) (buf m) (@OV.Base.Arith.zero (SA S)))))%R.
+Print Assumptions mnorm_p_is_fold_of_buf.
+Example mnorm_p_is_fold_of_buf_nonvacuous :
+  Proofs.Matrix.wf (@mkM AF [1.5%float; (-2)%float; 3%float; 4%float; 0%float; (-0.5)%float] 2 3).
+Proof. reflexivity. Qed.
